@@ -1,23 +1,22 @@
 \* generated by mkcfg_searchers.py; families and layouts: MCSearchers.tla
 SPECIFICATION Spec
 CONSTANTS
-  SegSizes <- Segs3
-  Deleted = {1}
+  SegSizes <- Segs21
+  Deleted = {}
   OneHitEnc = TRUE
   ScoreNone = FALSE
   HeapTakeover = 10
-  MaxCalls = 3
-  NTerms = 2
-  Family = "core2"
+  MaxCalls = 4
+  NTerms = 3
+  Family = "deepq2"
   DropK1 = FALSE
   Queries <- MCQueries
   FixEmptySnapshot = TRUE
   FixBoolAdvance = TRUE
   FixShouldMin = TRUE
   FirstAdvanceOK <- FirstAdvAlways
+VIEW View
 INVARIANT ResultOK
 INVARIANT NoPanic
-INVARIANT Ascending
-INVARIANT NothingSkipped
-INVARIANT OnlyMatches
+INVARIANT EnumIsHits
 CHECK_DEADLOCK FALSE
